@@ -42,20 +42,17 @@ func init() {
 			if t == ev.Thorough {
 				return 8000
 			}
-			return 160
+			return 320
 		},
 		Batches: func(t string) int {
-			if t == ev.Thorough {
-				return 16
-			}
-			return 8
+			return 16
 		},
 		Rule: "each case = 200 key tuples + their boundary neighbours (A,B), 300 hostile byte strings for SplitKeys (C), 14 container histories (D). Tuples: depth 1-4 of strings/bytes/ints/bools/addresses/big ints/HexInt/byte from a small adversarial pool ('ab'+'c' vs 'a'+'bc', empty parts, single bytes < 0x80 and >= 0x80, 55/56/255/256-byte parts, parts that look like RLP headers, int 65 vs 'A'); every tuple and its neighbours (boundary moved, two parts merged, one part split, part replaced by its own RLP encoding, empty part inserted, type changed with same bytes) are keyed by RLP/hash/prefixed-hash builders, scoredb.ToKey/AppendKeys with random Append chaining, and entered in a per-case map key->byte-level parts: same key with different parts = collision; the harness' own value->bytes conversion defines the parts. Histories: 2-3 vars, 2-3 arrays, 2-3 dicts (depth 1-3, also through GetDB sub-dictionaries) with prefix-free adversarial names in ONE real account store (state.WorldState account), 60-120 ops vs slice/map models, every op's result compared and all containers re-read at the end. Non-trivial = distinct tuple pair (tuple, neighbour) with different parts, or distinct history in which an array was popped to empty and refilled or a nested dict entry was overwritten and deleted.",
 		MinNonTrivial: func(t string) int {
 			if t == ev.Thorough {
 				return 1000000
 			}
-			return 30000
+			return 60000
 		},
 		Required: []string{"tuples", "neighbour_pairs_distinct_parts", "neighbour_pairs_same_parts", "keys_rlp", "keys_hash", "keys_prefixed_hash",
 			"keys_scoredb", "split_roundtrips", "split_hostile_rejected", "split_hostile_accepted", "part_len_55", "part_len_56", "part_len_256",
